@@ -17,7 +17,97 @@ from ..report import AnalysisError
 from ..term import Resolver, pmatch, abstract, anf_of
 
 REL = "inference/pdf/hdi.py"
-FLOORS = {"float-arithmetic": 1, "ownership": 1, "window-offset": 3, "axis-discipline": 5, "endpoints-are-samples": 1}
+FLOORS = {"input-layout": 1, "float-arithmetic": 1, "ownership": 1, "window-offset": 3, "axis-discipline": 5, "endpoints-are-samples": 1}
+
+
+NEUTRAL_CALLS = {"array", "asarray", "asanyarray", "copy", "ascontiguousarray", "atleast_1d", "deepcopy"}
+NEUTRAL_KW = {"dtype", "copy", "order"}
+
+
+def _layout_ops(v, pname):
+    """Peel copying / converting wrappers off `v` down to the parameter; returns the list of operations that are not pure
+    conversions (each can change which axis holds the draws), or None if the parameter is not reached."""
+    ops = []
+    while True:
+        if isinstance(v, ast.Name):
+            return ops if v.id == pname else None
+        if isinstance(v, ast.Call):
+            f = v.func
+            if isinstance(f, ast.Attribute) and f.attr in ("copy", "astype", "view") and len(v.args) <= 1 and f.attr != "view":
+                v = f.value
+                continue
+            nm = f.attr if isinstance(f, ast.Attribute) else f.id if isinstance(f, ast.Name) else None
+            recv_call = isinstance(f, ast.Attribute) and not (isinstance(f.value, ast.Name) and f.value.id in ("np", "numpy", "copy"))
+            if nm in NEUTRAL_CALLS and not recv_call and v.args:
+                extra = [k.arg for k in v.keywords if k.arg not in NEUTRAL_KW]
+                if extra:
+                    ops.append(f"{nm}(.., {', '.join(str(e) + '=' + U(k.value) for e, k in zip(extra, [k for k in v.keywords if k.arg in extra]))})")
+                v = v.args[0]
+                continue
+            ops.append(f"{nm}(..)" if not recv_call else f".{nm}(..)")
+            v = f.value if recv_call else (v.args[0] if v.args else None)
+            if v is None:
+                return None
+            continue
+        if isinstance(v, ast.Attribute):
+            ops.append("." + v.attr)
+            v = v.value
+            continue
+        if isinstance(v, ast.Subscript):
+            ops.append(f"[{U(v.slice)}]")
+            v = v.value
+            continue
+        return None
+
+
+def _input_layout(fn, construct):
+    """The input may arrive as an ndarray or as a (nested) sequence; the arms of the type dispatch must hand the same array on -
+    rows are draws, columns are variables, whatever the container.  The arms may differ in how they copy / convert only."""
+    pname = fn.args.args[0].arg
+    arms = []
+
+    def is_dispatch(t):
+        return any(isinstance(n, ast.Call) and U(n.func) == "isinstance" and n.args and U(n.args[0]) == pname for n in ast.walk(t))
+
+    def collect(st):
+        if isinstance(st, ast.If) and is_dispatch(st.test):
+            arms.append((U(st.test), st.body))
+            if len(st.orelse) == 1 and isinstance(st.orelse[0], ast.If):
+                collect(st.orelse[0])
+            elif st.orelse:
+                arms.append(("else", st.orelse))
+    for st in fn.body:
+        if isinstance(st, ast.If) and is_dispatch(st.test) and not arms:
+            collect(st)
+    conv = []
+    for test, body in arms:
+        for s_ in body:
+            if isinstance(s_, ast.Assign) and len(s_.targets) == 1 and isinstance(s_.targets[0], ast.Name) \
+                    and any(isinstance(n, ast.Name) and n.id == pname for n in ast.walk(s_.value)):
+                conv.append((test, s_.targets[0].id, s_.value, s_.lineno))
+    if not arms:
+        # no dispatch on the container type: a single conversion serves every input, so the layout cannot differ
+        single = [s_ for s_ in fn.body if isinstance(s_, ast.Assign) and len(s_.targets) == 1 and isinstance(s_.targets[0], ast.Name)
+                  and _layout_ops(s_.value, pname) is not None]
+        if len(single) == 1:
+            return struct_ob("input-layout", construct, True, "", REL, single[0].lineno,
+                             slots={"arms": [{"test": "always", "conversion": U(single[0].value)}]})
+    if len(conv) < 2 or len({c[1] for c in conv}) != 1:
+        raise AnalysisError(f"anchor vanished: input-type dispatch of sample_hdi ({len(conv)} conversions of `{pname}`)")
+    layouts = []
+    for test, name, v, line in conv:
+        ops = _layout_ops(v, pname)
+        if ops is None:
+            raise AnalysisError(f"input-layout: conversion `{U(v)}` (line {line}) does not reduce to `{pname}`")
+        layouts.append((test, tuple(ops), U(v), line))
+    distinct = {l[1] for l in layouts}
+    msg = ""
+    if len(distinct) > 1:
+        msg = ("the arms of the input-type dispatch lay the sample out differently: " +
+               "; ".join(f"under `{t}`: `{src}` applies {list(o) or 'no layout operation'}" for t, o, src, _ in layouts) +
+               " - a (draws x variables) sample given as a nested sequence is treated differently from the same sample as an array")
+    return struct_ob("input-layout", construct, len(distinct) == 1, msg, REL, layouts[0][3],
+                     slots={"arms": [{"test": t, "conversion": src, "layout_ops": list(o)} for t, o, src, _ in layouts]})
 
 
 def run(prog, tier):
@@ -154,6 +244,8 @@ def run(prog, tier):
                          "both end points must be sample values selected by index (no arithmetic on the values), which is what "
                          "makes the result covariant under positive affine maps", REL, fn.lineno,
                          slots={"stores": [U(s) for s in stores]}))
+
+    obs.append(_input_layout(fn, construct))
 
     obs.extend(dtype_hazard_obligations(prog, "float-arithmetic", ['inference/pdf/hdi.py']))
 
